@@ -128,6 +128,8 @@ def run_engine(ob, cubes, workdir, tag):
         cmd.append("-cross")
     if ob.get("decide", True):
         cmd.append("-decide")
+    if ob.get("oneshot"):
+        cmd.append("-oneshot")
     cmd += ["-maporder", ob.get("maporder", "fixed"), "-solver", ob.get("solver", "z3")]
     for k, v in ob.get("consts", {}).items():
         cmd += ["-const", "%s=%d" % (k, v)]
